@@ -32,22 +32,22 @@ Proof. unfold good; simpl; repeat split; try (apply Qc_is_canon; reflexivity); d
 Lemma scaled_2_8 : scaled QcF (q 2) ctx2 ctx8.
 Proof. unfold scaled; simpl; repeat split; apply Qc_is_canon; reflexivity. Qed.
 
-(* MSgate(avg=False): the ancilla value returned at hbar=8 is not 2x the one at hbar=2 (it is half of it) *)
-Lemma msgate_ancilla_not_scaled :
+(* MSgate(avg=False) BEFORE fix 9dd729a: the ancilla value returned at hbar=8 is not 2x the one at hbar=2 (it is half of it) *)
+Lemma msgate_ancilla_old_not_scaled :
   exists (c c' : hctx Qc) (lam v : Qc), good QcF c /\ good QcF c' /\ scaled QcF lam c c' /\
-    msgate_result QcF c' v <> fmul QcF lam (msgate_result QcF c v).
+    msgate_result_old QcF c' v <> fmul QcF lam (msgate_result_old QcF c v).
 Proof.
   exists ctx2, ctx8, (q 2), (q 1).
   refine (conj good_ctx2 (conj good_ctx8 (conj scaled_2_8 _))).
   vm_compute. discriminate.
 Qed.
 
-(* Gaussian parity_expectation on a proper subset of modes: the prefactor uses len(modes) but the
+(* Gaussian parity_expectation on a proper subset of modes BEFORE fix 5603fbf: the prefactor uses len(modes) but the
    determinant is that of the full covariance matrix (N modes) *)
-Lemma parity_subset_not_invariant :
+Lemma parity_subset_old_not_invariant :
   exists (c c' : hctx Qc) (lam : Qc) (N m : nat) (numsq detcov : Qc),
     good QcF c /\ good QcF c' /\ scaled QcF lam c c' /\ (m < N)%nat /\ detcov <> f0 QcF /\
-    parity_sq QcF c' m numsq (fmul QcF (kpow QcF (fmul QcF lam lam) (2 * N)%nat) detcov) <> parity_sq QcF c m numsq detcov.
+    parity_sq_old QcF c' m numsq (fmul QcF (kpow QcF (fmul QcF lam lam) (2 * N)%nat) detcov) <> parity_sq_old QcF c m numsq detcov.
 Proof.
   exists ctx2, ctx8, (q 2), 2%nat, 1%nat, (q 1), (q 1).
   refine (conj good_ctx2 (conj good_ctx8 (conj scaled_2_8 (conj _ (conj _ _))))).
@@ -56,16 +56,16 @@ Proof.
   - vm_compute. discriminate.
 Qed.
 
-(* is_coherent / is_squeezed / squeezing on a ONE-mode state write cov / (hbar/2) back into the state *)
-Lemma is_coherent_store_unchanged_hbar2 (cov : list (list Qc)) : is_coherent_1mode_store QcF ctx2 cov = cov.
+(* is_coherent / is_squeezed / squeezing on a ONE-mode state BEFORE fix 0265ab6 wrote cov / (hbar/2) back into the state *)
+Lemma is_coherent_store_old_unchanged_hbar2 (cov : list (list Qc)) : is_coherent_1mode_store_old QcF ctx2 cov = cov.
 Proof.
-  unfold is_coherent_1mode_store. rewrite <- (map_id cov) at 2. apply map_ext; intro row.
+  unfold is_coherent_1mode_store_old. rewrite <- (map_id cov) at 2. apply map_ext; intro row.
   rewrite <- (map_id row) at 2. apply map_ext; intro v. unfold st_dimless_cov. cbn [fdiv QcF hb ctx2].
   assert (E : Qcdiv (q 2) (two QcF) = 1%Qc) by (apply Qc_is_canon; reflexivity).
   rewrite E. unfold Qcdiv. assert (E1 : Qcinv 1 = 1%Qc) by (apply Qc_is_canon; reflexivity). rewrite E1. ring.
 Qed.
-Lemma is_coherent_store_changed :
-  exists (c : hctx Qc) (cov : list (list Qc)), good QcF c /\ is_coherent_1mode_store QcF c cov <> cov.
+Lemma is_coherent_store_old_changed :
+  exists (c : hctx Qc) (cov : list (list Qc)), good QcF c /\ is_coherent_1mode_store_old QcF c cov <> cov.
 Proof.
   exists ctx8, [[q 4; q 0]; [q 0; q 4]]. split; [apply good_ctx8|]. vm_compute. discriminate.
 Qed.
